@@ -46,11 +46,11 @@ class C02(Prop):
         # structure kinds x branch positions x what may stand there (an element, X, x), one and two levels deep
         slots = ["[{}]", "[1|{}]", "[1|2|{}]", "[1|2|3|{}]", "({})", "(i|{})", "{{{}|1}}", "{{1|{}}}", "{{{}}}", "λ{};", "λ2|{};", "ƛ{};", "'{};", "µ{};", "⟨{}⟩", "⟨1|{}⟩", "@f|{};", "@f:a:2|{};", "@f:*|{};",
                  "v{}", "&{}", "~{}", "ß{}", "ƒ{}", "ɖ{}", "⁽{}", "₌{}+", "₌+{}", "‡{}+", "‡+{}", "₍{}+", "≬{}++", "≬++{}", "{}"]
-        fills = ["+", "X", "x", "1", "`a`", "", "+X", "X+", "[X]", "(x)", "⟨X⟩", "λX;", "ƛx;", "vX", "¨…", "n"]
+        fills = ["+", "X", "x", "1", "`a`", "", "+X", "X+", "[X]", "(x)", "⟨X⟩", "λX;", "ƛx;", "vX", "¨…", "n", "\n", "\n+", " ", "∆", "#c\n"]
         for s in slots:
             for f in fills:
-                if f == "" and s[0] in "v&~ßƒɖ⁽₌‡₍≬":
-                    continue  # a modifier without its operands is not a well-formed program
+                if f in ("", " ", "#c\n", "∆", "\n", "\n+") and s[0] in "v&~ßƒɖ⁽₌‡₍≬":
+                    continue  # a modifier without its operands is not a well-formed program (spaces and comments are no operands, ∆ swallows the next character)
                 prog = s.format(f)
                 g.append(self.compile_ground(f"C02/compiles[{prog}]", prog))
         # names, parameters and arities: what stands in a name / parameter / arity branch is program-chosen text too
